@@ -1,10 +1,12 @@
 #!/bin/bash
-# re-runs every seeded change against its check (tier from meta.json) and reports whether it is still detected
+# re-runs every seeded change against the check that detects it (check and tier from meta.json) and reports whether it is still detected.
+# patch_head.diff (the same change ported to the current HEAD after later fix commits rewrote the patched lines) is preferred over patch.diff.
 cd /verif
 for d in seeded/*/; do
   n=$(basename $d)
-  id=$(python3 -c "import json;print(json.load(open('$d/meta.json'))['property'])")
+  id=$(python3 -c "import json;m=json.load(open('$d/meta.json'));print((m.get('detected_by') or {}).get('check') or m['property'])")
   tier=$(python3 -c "import json;print((json.load(open('$d/meta.json')).get('detected_by') or {}).get('tier','quick'))")
-  out=$(tools/try_mutant.sh /verif/$d/patch.diff $id $tier 2>&1 | tail -1)
+  p=/verif/$d/patch.diff; [ -f /verif/$d/patch_head.diff ] && p=/verif/$d/patch_head.diff
+  out=$(tools/try_mutant.sh $p $id $tier 2>&1 | tail -1)
   echo "$n $id $tier $out"
 done
